@@ -37,4 +37,24 @@ def dry_experiment(workdir: Path, name="xp", run_mode=None):
         yield xp
     finally:
         # leave through the exception path: nothing to wait for in dry-run
+        leave_experiment(xp)
+
+
+def leave_experiment(xp):
+    """Leave an experiment through its exception path and make sure its event-loop thread really ends: __exit__ calls
+    loop.stop() from the caller's thread, which the loop thread only notices when something wakes it up; a harness
+    that opens thousands of experiments in one process would otherwise accumulate one thread and three descriptors
+    per experiment."""
+    central = getattr(xp, "central", None)
+    loop = central.loop if central is not None else None
+    try:
         xp.__exit__(RuntimeError, None, None)
+    finally:
+        if loop is not None:
+            try:
+                loop.call_soon_threadsafe(lambda: None)
+                central.join(2)
+                if not central.is_alive():
+                    loop.close()
+            except Exception:
+                pass
